@@ -3,6 +3,7 @@
 -/
 import LtVerif.Model.Arith
 import LtVerif.Model.ArithRange
+import LtVerif.Model.H1Chunked
 import LtVerif.Proofs.Range
 namespace LtVerif
 namespace Arith
@@ -180,20 +181,28 @@ theorem ckHex_spec (guard : Int) (hg : guard ≤ 576460752303423485) (line : Byt
         obtain ⟨n, hn1, hn2, hn3, hn4⟩ := ih2 te k' r h
         exact ⟨n, hn1, hn2, hn3, by omega⟩
 
-theorem splitLf_length (data : Bytes) : ∀ (acc line rest : Bytes),
-    splitLf data acc = some (line, rest) → line.length + rest.length = acc.length + data.length := by
+theorem lfIdx_lt (data : Bytes) : ∀ (i j : Nat), lfIdx data i = some j → i ≤ j ∧ j < i + data.length := by
   induction data with
-  | nil => intro acc line rest h; simp [splitLf] at h
+  | nil => intro i j h; simp [lfIdx] at h
   | cons b t ih =>
-    intro acc line rest h
-    simp only [splitLf] at h
+    intro i j h
+    simp only [lfIdx] at h
     split at h
-    · simp only [Option.some.injEq, Prod.mk.injEq] at h
-      obtain ⟨h1, h2⟩ := h
-      subst h1; subst h2
-      simp; omega
-    · have := ih _ _ _ h
-      simp at this ⊢; omega
+    · simp only [Option.some.injEq] at h; subst h; simp
+    · have := ih _ _ h; simp only [List.length_cons]; omega
+
+theorem splitLf_length (data : Bytes) (acc line rest : Bytes)
+    (h : splitLf data acc = some (line, rest)) : line.length + rest.length = acc.length + data.length := by
+  unfold splitLf at h
+  split at h
+  · simp at h
+  · rename_i i hi
+    have := lfIdx_lt data 0 i hi
+    simp only [Option.some.injEq, Prod.mk.injEq] at h
+    obtain ⟨h1, h2⟩ := h
+    subst h1; subst h2
+    simp only [List.length_append, List.length_take, List.length_drop]
+    omega
 
 /-- acceptable outcomes of the chunk-header step: never `ub`; a remaining-length counter is a
     non-negative off_t and no more bytes are moved than were supplied -/
@@ -850,6 +859,317 @@ theorem parse_len (s : Bytes) (len : Int) : (parse s len).length ≤ RMAX := by
 
 
 end RangeArith
+
+/-! ### accumulators that carry partial input across reads -/
+
+theorem lfIdx_mem (data : Bytes) : ∀ (k j : Nat), lfIdx data k = some j → lf ∈ data.take (j - k + 1) := by
+  induction data with
+  | nil => intro k j h; simp [lfIdx] at h
+  | cons b t ih =>
+    intro k j h
+    simp only [lfIdx] at h
+    split at h
+    · rename_i hb; simp [hb]
+    · have h1 := ih _ _ h
+      have h2 := lfIdx_lt t (k + 1) j h
+      have e : j - k + 1 = (j - (k + 1) + 1) + 1 := by omega
+      rw [e, List.take_succ_cons]
+      exact List.mem_cons_of_mem _ h1
+
+theorem splitLf_mem {data acc line rest : Bytes} (h : splitLf data acc = some (line, rest)) :
+    lf ∈ data ∧ ∃ i, line = acc ++ data.take (i + 1) ∧ lf ∈ data.take (i + 1) ∧ rest = data.drop (i + 1) := by
+  unfold splitLf at h
+  split at h
+  · simp at h
+  · rename_i i hi
+    have hm := lfIdx_mem data 0 i hi
+    simp only [Nat.sub_zero] at hm
+    simp only [Option.some.injEq, Prod.mk.injEq] at h
+    exact ⟨List.mem_of_mem_take hm, i, h.1.symm, hm, h.2.symm⟩
+
+theorem splitLf_nil_line {data line rest : Bytes} (h : splitLf data [] = some (line, rest)) :
+    line = data.take line.length ∧ lf ∈ line := by
+  unfold splitLf at h
+  split at h
+  · simp at h
+  · rename_i i hi
+    have hm := lfIdx_mem data 0 i hi
+    have hl := lfIdx_lt data 0 i hi
+    simp only [Nat.sub_zero] at hm
+    simp only [Option.some.injEq, Prod.mk.injEq, List.nil_append] at h
+    obtain ⟨h1, _⟩ := h
+    subst h1
+    have : (data.take (i + 1)).length = i + 1 := by simp only [List.length_take]; omega
+    rw [this]
+    exact ⟨rfl, hm⟩
+
+theorem noLf_false_of_mem {x : Bytes} (h : lf ∈ x) : noLf x = false := by
+  simp [noLf, h]
+
+/-- bound of the header / trailer buffer `gw_dechunk->b` -/
+def gwBound (maxField : Nat) : Nat := Nat.max 1024 maxField
+
+/-- invariant of the decoder state between reads -/
+structure GwInv (maxField : Nat) (st : GwSt) : Prop where
+  live : st.done = false → st.h.length ≤ gwBound maxField
+  all : st.h.length ≤ gwBound maxField + 4
+  partialLine : noLf st.h = true → st.h.length ≤ 1024
+
+theorem ckPartialMaxGw_eq : Extracted.ckPartialMaxGw = 1024 := by decide
+
+theorem gwLastChunk_inv (maxField : Nat) (st : GwSt) (h m : Bytes) (hsz : Nat) (p : Bytes)
+    (hb : h.length ≤ gwBound maxField) (hlf : lf ∈ h ++ m) (st' : GwSt)
+    (hr : gwLastChunk maxField st h m hsz p = .stop st') : GwInv maxField st' := by
+  unfold gwLastChunk at hr
+  simp only at hr
+  generalize hml : (if maxField > h.length then maxField - h.length else 0) = mlen at hr
+  have hmf : maxField ≤ gwBound maxField := Nat.le_max_right _ _
+  have hm1 : h.length + mlen ≤ gwBound maxField := by split at hml <;> omega
+  have hm2 : maxField ≤ h.length + mlen := by split at hml <;> omega
+  by_cases c1 : (decide ((m.length : Int) - (hsz : Int) ≥ 2) && decide (p.getD 0 0 = cr) && decide (p.getD 1 0 = lf)) = true
+  · rw [if_pos c1] at hr
+    by_cases c2 : (m.length : Int) - (hsz : Int) > 2
+    · rw [if_pos c2] at hr; cases hr
+    · rw [if_neg c2] at hr
+      injection hr with hr; subst hr
+      exact ⟨by intro _; simp, by simp, by intro _; simp⟩
+  · rw [if_neg c1] at hr
+    by_cases c3 : (mlen : Int) < (m.length : Int)
+    · rw [if_pos c3] at hr
+      injection hr with hr; subst hr
+      have hh1 : (h ++ m.take mlen).length ≤ gwBound maxField := by
+        simp only [List.length_append, List.length_take]; omega
+      generalize (h ++ m.take mlen) = h1 at hh1 ⊢
+      refine ⟨by intro hd; simp at hd, ?_, ?_⟩
+      · simp only
+        split
+        · split
+          · simp only [List.length_append, List.length_take, List.length_cons, List.length_nil]; omega
+          · simp only [List.length_append, List.length_take, List.length_cons, List.length_nil]; omega
+        · simp only [List.length_append, List.length_cons, List.length_nil]; have : 1024 ≤ gwBound maxField := Nat.le_max_left _ _; omega
+      · intro hn
+        exfalso
+        simp only at hn
+        rw [noLf_false_of_mem (by simp)] at hn; cases hn
+    · rw [if_neg c3] at hr
+      have hlen : (h ++ m).length ≤ gwBound maxField := by
+        simp only [List.length_append]; omega
+      have hnl : noLf (h ++ m) = false := noLf_false_of_mem hlf
+      split at hr
+      · split at hr
+        · cases hr
+        · injection hr with hr; subst hr
+          exact ⟨by intro _; exact hlen, by simp only; omega, by intro hn; simp only at hn; rw [hnl] at hn; cases hn⟩
+      · injection hr with hr; subst hr
+        exact ⟨by intro _; exact hlen, by simp only; omega, by intro hn; simp only at hn; rw [hnl] at hn; cases hn⟩
+
+theorem gwLastChunk_not_cont (maxField : Nat) (st : GwSt) (h m : Bytes) (hsz : Nat) (p : Bytes)
+    (st' : GwSt) (m' : Bytes) : gwLastChunk maxField st h m hsz p ≠ .cont st' m' := by
+  unfold gwLastChunk
+  simp only
+  generalize (if maxField > h.length then maxField - h.length else 0) = mlen
+  intro hr
+  by_cases c1 : (decide ((m.length : Int) - (hsz : Int) ≥ 2) && decide (p.getD 0 0 = cr) && decide (p.getD 1 0 = lf)) = true
+  · rw [if_pos c1] at hr
+    split at hr <;> cases hr
+  · rw [if_neg c1] at hr
+    by_cases c3 : (mlen : Int) < (m.length : Int)
+    · rw [if_pos c3] at hr; cases hr
+    · rw [if_neg c3] at hr
+      split at hr
+      · split at hr <;> cases hr
+      · cases hr
+
+theorem gwInv_nil (maxField : Nat) (st : GwSt) : GwInv maxField { st with h := [] } :=
+  ⟨by intro _; simp, by simp, by intro _; simp⟩
+
+theorem gwLine_inv (maxField : Nat) (st : GwSt) (src : Bytes) (lineOk : Bool) (h m : Bytes) (hsz adv : Nat)
+    (p : Bytes) (fromH : Bool) (hb : h.length ≤ gwBound maxField) (hlf : lf ∈ h ++ m) :
+    (∀ st', gwLine maxField st src lineOk h m hsz adv p fromH = .stop st' → GwInv maxField st') ∧
+    (∀ st' m', gwLine maxField st src lineOk h m hsz adv p fromH = .cont st' m' →
+      GwInv maxField st' ∧ st'.done = st.done) := by
+  unfold gwLine
+  split
+  · exact ⟨fun _ hr => (nomatch hr), fun _ _ hr => (nomatch hr)⟩
+  · exact ⟨fun _ hr => (nomatch hr), fun _ _ hr => (nomatch hr)⟩
+  · rename_i te k after _
+    split
+    · exact ⟨fun _ hr => (nomatch hr), fun _ _ hr => (nomatch hr)⟩
+    · split
+      · exact ⟨fun st' hr => gwLastChunk_inv maxField st h m hsz p hb hlf st' hr,
+          fun st' m' hr => absurd hr (gwLastChunk_not_cont maxField st h m hsz p st' m')⟩
+      · split
+        · exact ⟨fun _ hr => (nomatch hr), fun _ _ hr => (nomatch hr)⟩
+        · simp only
+          split
+          · exact ⟨fun _ hr => (nomatch hr), fun _ _ hr => (nomatch hr)⟩
+          · split
+            · refine ⟨?_, fun _ _ hr => (nomatch hr)⟩
+              intro st' hr; injection hr with hr; subst hr
+              exact gwInv_nil maxField { st with te := te + 2 }
+            · refine ⟨fun _ hr => (nomatch hr), ?_⟩
+              intro st' m' hr; injection hr with hr1 hr2; subst hr1
+              exact ⟨gwInv_nil maxField { st with te := te + 2 }, rfl⟩
+
+theorem lfIdx_none (data : Bytes) : ∀ k, lfIdx data k = none → lf ∉ data := by
+  induction data with
+  | nil => intro k _; simp
+  | cons b t ih =>
+    intro k h
+    simp only [lfIdx] at h
+    split at h
+    · cases h
+    · rename_i hb
+      have := ih _ h
+      simp only [List.mem_cons, not_or]
+      exact ⟨fun e => hb e.symm, this⟩
+
+theorem splitLf_none {data acc : Bytes} (h : splitLf data acc = none) : noLf data = true := by
+  unfold splitLf at h
+  split at h
+  · rename_i hn
+    have := lfIdx_none data 0 hn
+    simp [noLf, this]
+  · cases h
+
+theorem gwInv_of_eq {maxField : Nat} {st st' : GwSt} (hh : st'.h = st.h) (hd : st'.done = st.done)
+    (hi : GwInv maxField st) : GwInv maxField st' :=
+  ⟨by rw [hh, hd]; exact hi.live, by rw [hh]; exact hi.all, by rw [hh]; exact hi.partialLine⟩
+
+/-- an iteration outcome that leaves the header buffer and the `done` flag alone -/
+def Keeps (st : GwSt) : GwIter → Prop
+  | .stop s => s.h = st.h ∧ s.done = st.done
+  | .cont s _ => s.h = st.h ∧ s.done = st.done
+  | _ => True
+
+theorem keeps_inv {maxField : Nat} {st : GwSt} {x : GwIter} (hi : GwInv maxField st) (hd : st.done = false)
+    (hk : Keeps st x) :
+    (∀ st', x = .stop st' → GwInv maxField st') ∧
+    (∀ st' m', x = .cont st' m' → GwInv maxField st' ∧ st'.done = false) := by
+  constructor
+  · intro st' e; subst e; exact gwInv_of_eq hk.1 hk.2 hi
+  · intro st' m' e; subst e; exact ⟨gwInv_of_eq hk.1 hk.2 hi, by rw [hk.2]; exact hd⟩
+
+theorem gwIter_inv (maxField : Nat) (st : GwSt) (m : Bytes) (hi : GwInv maxField st) (hd : st.done = false) :
+    (∀ st', gwIter maxField st m = .stop st' → GwInv maxField st') ∧
+    (∀ st' m', gwIter maxField st m = .cont st' m' → GwInv maxField st' ∧ st'.done = false) := by
+  have h1024 : 1024 ≤ gwBound maxField := Nat.le_max_left _ _
+  unfold gwIter
+  split
+  · -- te = 0
+    split
+    · -- header buffer blank
+      rename_i hemp
+      split
+      · split
+        · exact ⟨fun _ hr => (nomatch hr), fun _ _ hr => (nomatch hr)⟩
+        · rename_i hlt
+          rw [ckPartialMaxGw_eq] at hlt
+          refine ⟨?_, fun _ _ hr => (nomatch hr)⟩
+          intro st' hr; injection hr with hr; subst hr
+          exact ⟨by intro _; simp only; omega, by simp only; omega, by intro _; simp only; omega⟩
+      · rename_i line rest hs
+        have hm := (splitLf_mem hs).1
+        have := gwLine_inv maxField st m (!(decide (line.length = 1) || decide (line.getD (line.length - 2) 0 ≠ cr)))
+          [] m line.length line.length rest false (by simp) (by simpa using hm)
+        exact ⟨this.1, fun st' m' hr => by have := this.2 st' m' hr; exact ⟨this.1, by rw [this.2]; exact hd⟩⟩
+    · split
+      · rename_i line rest hs
+        have hm := (splitLf_mem hs).1
+        have := gwLine_inv maxField st st.h (decide (st.h.getD (st.h.length - 2) 0 = cr)) st.h m line.length 0 rest true
+          (hi.live hd) (by simp [hm])
+        exact ⟨this.1, fun st' m' hr => by have := this.2 st' m' hr; exact ⟨this.1, by rw [this.2]; exact hd⟩⟩
+      · rename_i hs
+        have hp := hi.partialLine (splitLf_none hs)
+        have hw : wrap32 (Extracted.ckPartialMaxGw + (u32Max + 1) - st.h.length) = 1024 - st.h.length := by
+          simp only [wrap32, ckPartialMaxGw_eq, u32Max_eq]; omega
+        rw [hw]
+        split
+        · split
+          · exact ⟨fun _ hr => (nomatch hr), fun _ _ hr => (nomatch hr)⟩
+          · rename_i hfit
+            refine ⟨?_, fun _ _ hr => (nomatch hr)⟩
+            intro st' hr; injection hr with hr; subst hr
+            have hl' : (st.h ++ m).length ≤ 1024 := by simp only [List.length_append]; omega
+            exact ⟨by intro _; simp only; omega, by simp only; omega, by intro _; simp only; omega⟩
+        · rename_i line rest hsm
+          obtain ⟨hl, hmem⟩ := splitLf_nil_line hsm
+          split
+          · exact ⟨fun _ hr => (nomatch hr), fun _ _ hr => (nomatch hr)⟩
+          · rename_i hfit
+            have hl' : (st.h ++ line).length ≤ 1024 := by simp only [List.length_append]; omega
+            have hlf : lf ∈ st.h ++ line := List.mem_append_right _ hmem
+            have := gwLine_inv maxField st (st.h ++ line)
+              (decide ((st.h ++ line).getD ((st.h ++ line).length - 2) 0 = cr))
+              (st.h ++ line) rest 0 0 rest true (by omega) (List.mem_append_left _ hlf)
+            exact ⟨this.1, fun st' m' hr => by have := this.2 st' m' hr; exact ⟨this.1, by rw [this.2]; exact hd⟩⟩
+  · -- chunk data, its CRLF: the header buffer is not touched
+    apply keeps_inv hi hd
+    simp only
+    repeat' split
+    all_goals simp [Keeps]
+
+theorem gwLoop_inv (maxField : Nat) : ∀ (fuel : Nat) (st : GwSt) (m : Bytes), GwInv maxField st → st.done = false →
+    ∀ st', gwLoop maxField fuel st m = .ok st' → GwInv maxField st' := by
+  intro fuel
+  induction fuel with
+  | zero => intro st m _ _ st' hr; cases hr
+  | succ fuel ih =>
+    intro st m hi hd st' hr
+    simp only [gwLoop] at hr
+    split at hr
+    · injection hr with hr; subst hr; exact hi
+    · have := gwIter_inv maxField st m hi hd
+      split at hr
+      · cases hr
+      · cases hr
+      · rename_i st1 hit
+        injection hr with hr; subst hr
+        exact this.1 _ hit
+      · rename_i st1 m1 hit
+        obtain ⟨h1, h2⟩ := this.2 _ _ hit
+        exact ih st1 m1 h1 h2 st' hr
+
+theorem gwRead_inv (maxField : Nat) (st : GwSt) (m : Bytes) (hi : GwInv maxField st) (st' : GwSt)
+    (hr : gwRead maxField st m = .ok st') : GwInv maxField st' := by
+  unfold gwRead at hr
+  split at hr
+  · cases hr
+  · rename_i hd
+    exact gwLoop_inv maxField _ st m hi (by simpa using hd) st' hr
+
+/-- invariant of a run over a sequence of reads -/
+structure GwRunInv (maxField : Nat) (r : GwRun) : Prop where
+  st : GwInv maxField r.st
+  maxh : r.maxh ≤ gwBound maxField + 4
+  maxp : r.maxp ≤ 1024
+
+theorem gwRunStep_inv (maxField : Nat) (r : GwRun) (m : Bytes) (hi : GwRunInv maxField r) :
+    GwRunInv maxField (gwRunStep maxField r m) := by
+  unfold gwRunStep
+  split
+  · exact hi
+  · split
+    · exact ⟨hi.st, hi.maxh, hi.maxp⟩
+    · exact ⟨hi.st, hi.maxh, hi.maxp⟩
+    · rename_i st' hr
+      have hs := gwRead_inv maxField r.st m hi.st st' hr
+      refine ⟨hs, ?_, ?_⟩
+      · simp only; exact Nat.max_le.mpr ⟨hi.maxh, hs.all⟩
+      · simp only
+        split
+        · rename_i hn; exact Nat.max_le.mpr ⟨hi.maxp, hs.partialLine hn⟩
+        · exact hi.maxp
+
+theorem gwRun_inv (maxField : Nat) (reads : List Bytes) : GwRunInv maxField (gwRun maxField reads) := by
+  unfold gwRun
+  have h0 : GwRunInv maxField ({} : GwRun) :=
+    ⟨⟨by intro _; simp, by simp, by intro _; simp⟩, by simp, by simp⟩
+  generalize ({} : GwRun) = r0 at h0
+  induction reads generalizing r0 with
+  | nil => exact h0
+  | cons m rest ih => simp only [List.foldl_cons]; exact ih _ (gwRunStep_inv maxField r0 m h0)
+
 
 end Arith
 end LtVerif
